@@ -36,8 +36,12 @@ Definition check_pidx (c : nat * nat * list (list nat)) : bool :=
 """
 
 
+TRANSLATORS = [('py_window_facts', 'WindowK')]
+
+
 def theorems(ctx):
     ctx.modelled += MODELLED
+    ctx.generate(TRANSLATORS)
     ctx.theorems()
     if ctx.tier == "thorough":
         ctx.coqchk()
